@@ -931,3 +931,39 @@ var chkPolls = harness.Define("identical-polls-while-writing",
 	}, runPolls)
 
 func TestIdenticalPolls(t *testing.T) { chkPolls.Rapid(t, harness.Pick(12, 300)) }
+
+// ---------------------------------------------------------------------------
+// two clients, each shared by its own goroutines and talking to its own device, at work at the same time: each caller still gets the
+// reply to its own request on its own client (clients do not share anything)
+
+type duoCase struct {
+	A concCase `json:"a"`
+	B concCase `json:"b"`
+}
+
+func runDuo(c duoCase) harness.Result {
+	c.B.Procs = c.A.Procs // (GOMAXPROCS is process-wide)
+	var ra, rb harness.Result
+	var wg sync.WaitGroup
+	wg.Add(2)
+	go func() { defer wg.Done(); ra = runConc(c.A) }()
+	go func() { defer wg.Done(); rb = runConc(c.B) }()
+	wg.Wait()
+	if ra.Err != nil {
+		return harness.Fail("two clients at work at the same time; first client (%s): %v", c.A.Kind, ra.Err)
+	}
+	if rb.Err != nil {
+		return harness.Fail("two clients at work at the same time; second client (%s): %v", c.B.Kind, rb.Err)
+	}
+	return harness.Result{NonTrivial: ra.NonTrivial || rb.NonTrivial, Labels: []string{"two-clients-at-once", "kinds:" + c.A.Kind + "+" + c.B.Kind}}
+}
+
+var chkDuo = harness.Define("two-shared-clients",
+	func(t *rapid.T) duoCase {
+		d := duoCase{A: genConc(t), B: genConc(t)}
+		// no Close/Connect actions and no aged clients here: two plain concurrent scenarios side by side
+		d.A.Closers, d.B.Closers, d.A.Age, d.B.Age = nil, nil, 0, 0
+		return d
+	}, runDuo)
+
+func TestTwoClients(t *testing.T) { chkDuo.Rapid(t, harness.Pick(40, 600)) }
